@@ -140,7 +140,12 @@ def run(ctx):
     # 4. replay into the real Service + store effect on a real store
     rep = ctx.go_driver("pruner", env={"VERIF_BEHAVIOURS": path}, timeout=1500)
     c = rep.get("counters", {}) if rep else {}
-    ctx.cover(traces_validated_against_impl=int(c.get("behaviours_conforming", 0)))
+    ctx.cover(traces_validated_against_impl=int(c.get("behaviours_conforming", 0)),
+              evaluations=int(c.get("behaviours_replayed", 0)),
+              distinct_nontrivial=len({json.dumps(b["steps"], sort_keys=True) for b in behaviours
+                                       if any(x.get("n") in ("Prune", "Retry", "ODEnd") for x in b["steps"])}),
+              rule="behaviours of Pruner.tla (TLC simulation, depth 70, deduplicated) replayed into the real Service; "
+                   "non-trivial = distinct behaviours in which at least one Prune call is made")
     # vacuity: the replay must have exercised what the property talks about
     need = {"behaviours_replayed": 50 if quick else 500, "cycles": 100, "prune_calls": 100, "restarts": 10,
             "header_deletions": 10, "resets": 3, "old_blocks_checked": 20, "store_effect_modes": 3,
